@@ -80,6 +80,21 @@ pub fn check(prop: &str, tier: &str) -> Option<Report> {
         let w8: Vec<World> = wf_scripts(&[1, 2], 8, &[Ending::Complete, Ending::Error]).into_iter().filter(|s| s.len() >= 7).map(|s| cold_world(s, true)).collect();
         fams.push((Family { name: "depth 1, long scripts over {1,2}".into(), pipelines: depth1(&last_pos), worlds: Arc::new(w8), oracles: vec![Oracle::Functional] }, 1));
       }
+      {
+        // bursts far longer than any small constant an operator might batch or cap by
+        let mut wb = vec![];
+        for n in [40usize, 70] {
+          for pat in [[1i64, 2, 3], [3, 1, 1]] {
+            for end in [Some(Ev::C), Some(Ev::E(5)), None] {
+              let mut sc: Vec<Ev> = (0..n).map(|i| Ev::n(pat[i % 3])).collect();
+              sc.extend(end);
+              wb.push(cold_world(sc.clone(), true));
+              wb.push(hot_world(&sc));
+            }
+          }
+        }
+        fams.push((Family { name: "depth 1, bursts of 40 and 70 items".into(), pipelines: depth1(&last_pos), worlds: Arc::new(wb), oracles: vec![Oracle::Functional] }, 1));
+      }
       run_families(prop, &mut r, fams);
     }
     "C01" => {
@@ -180,6 +195,32 @@ pub fn check(prop: &str, tier: &str) -> Option<Report> {
       let wr_t = Arc::new(wr_terminating);
       fams.push((Family { name: "recovery operators, k-th subscription differs".into(), pipelines: depth1(&bounded), worlds: wr.clone(), oracles: vec![Oracle::Functional, Oracle::Teardown] }, 1));
       fams.push((Family { name: "retry(0) / retry_when(always), eventually succeeding source".into(), pipelines: depth1(&unbounded), worlds: wr_t.clone(), oracles: vec![Oracle::Functional, Oracle::Teardown] }, 1));
+      // recovery operators over hot sources that go on after the error they raised: the
+      // re-subscription is made from inside the source's error notification
+      {
+        let alpha = vec![Ev::n(1), Ev::n(2), Ev::E(1), Ev::E(7), Ev::C];
+        let mut w_hot_rec = vec![];
+        for h in strings(&alpha, if th { 5 } else { 4 }) {
+          if h.is_empty() {
+            continue;
+          }
+          let first_terminal = h.iter().position(|e| e.is_terminal());
+          for k in [SrcKind::Hot, SrcKind::Subject, SrcKind::BehaviorSubject, SrcKind::ReplaySubject] {
+            // what a Behavior/ReplaySubject does with calls after its terminal is not fixed
+            if matches!(k, SrcKind::BehaviorSubject | SrcKind::ReplaySubject) && first_terminal.map_or(false, |p| p + 1 < h.len()) {
+              continue;
+            }
+            let mut acts = vec![Act::Sub(0)];
+            acts.extend(h.iter().map(|e| Act::Emit(0, e.clone())));
+            w_hot_rec.push(World { srcs: vec![k], acts });
+          }
+        }
+        // a Behavior/ReplaySubject hands its stored error to every new attempt: retry_when would never end
+        let (w_stored, w_live): (Vec<World>, Vec<World>) = w_hot_rec.into_iter().partition(|w| matches!(w.srcs[0], SrcKind::BehaviorSubject | SrcKind::ReplaySubject));
+        let no_retry_when: Vec<Op> = bounded.iter().filter(|o| !matches!(o, Op::RetryWhen(_))).cloned().collect();
+        fams.push((Family { name: "recovery operators over hot sources and the crate's Subject, the source goes on after its error".into(), pipelines: depth1(&bounded), worlds: Arc::new(w_live), oracles: vec![Oracle::Functional, Oracle::Teardown] }, 1));
+        fams.push((Family { name: "recovery operators over Behavior/ReplaySubject (the stored error meets every attempt)".into(), pipelines: depth1(&no_retry_when), worlds: Arc::new(w_stored), oracles: vec![Oracle::Functional, Oracle::Teardown] }, 1));
+      }
       let red = reduced_ops();
       let mut nested = vec![];
       for r0 in &bounded {
@@ -251,6 +292,13 @@ pub fn check(prop: &str, tier: &str) -> Option<Report> {
           .map(|x| World { srcs: x.srcs.clone(), acts: x.acts.iter().map(|a| if let Act::Unsub(r) = a { Act::UsingDrop(*r) } else { a.clone() }).collect() })
           .collect();
         w.extend(using);
+        // ... and the guard's owner panics: the guard is dropped by the unwinding
+        let unwinding: Vec<World> = w
+          .iter()
+          .filter(|x| x.acts.iter().any(|a| matches!(a, Act::UsingDrop(_))))
+          .map(|x| World { srcs: x.srcs.clone(), acts: x.acts.iter().map(|a| if let Act::UsingDrop(r) = a { Act::UsingDropUnwinding(*r) } else { a.clone() }).collect() })
+          .collect();
+        w.extend(unwinding);
       } else {
         w.extend(lib_worlds(1));
       }
@@ -260,6 +308,19 @@ pub fn check(prop: &str, tier: &str) -> Option<Report> {
         subj.extend(w.iter().filter(|x| x.srcs[0] == SrcKind::Hot).map(|x| World { srcs: vec![k.clone()], acts: x.acts.clone() }));
       }
       w.extend(subj);
+      // Behavior/ReplaySubject that already hold items when the subscriber arrives: an operator
+      // that has all it needs ends during the hand-over
+      let mut prefilled: Vec<World> = vec![];
+      for k in [SrcKind::BehaviorSubject, SrcKind::ReplaySubject] {
+        for pre in [vec![1], vec![1, 2], vec![2, 1, 2]] {
+          for x in w.iter().filter(|x| x.srcs[0] == k).step_by(if th { 1 } else { 2 }) {
+            let mut acts: Vec<Act> = pre.iter().map(|v| Act::Emit(0, Ev::n(*v))).collect();
+            acts.extend(x.acts.iter().cloned());
+            prefilled.push(World { srcs: vec![k.clone()], acts });
+          }
+        }
+      }
+      w.extend(prefilled);
       let oracle = match prop {
         "C05" => vec![Oracle::Unsub],
         "C06" => vec![Oracle::Teardown],
@@ -499,7 +560,17 @@ fn c14_families(th: bool, single: &[Op], last_pos: &[Op]) -> Vec<(Family, usize)
       let mut acts = vec![decl.clone(), Act::Sub(0)];
       acts.extend(sc.iter().map(|e| Act::Emit(0, e.clone())));
       w_nest.push(World { srcs: vec![SrcKind::Hot], acts: acts.clone() });
-      w_nest.push(World { srcs: vec![SrcKind::Subject], acts });
+      w_nest.push(World { srcs: vec![SrcKind::Subject], acts: acts.clone() });
+      // the source goes on after its terminal: a subscription made from inside the
+      // terminal's notification is a subscription like any other
+      if matches!(trig, Trig::Complete | Trig::Error) {
+        for post in [vec![Ev::n(1)], vec![Ev::n(2), Ev::C], vec![Ev::E(3)]] {
+          let mut a2 = acts.clone();
+          a2.extend(post.iter().map(|e| Act::Emit(0, e.clone())));
+          w_nest.push(World { srcs: vec![SrcKind::Hot], acts: a2.clone() });
+          w_nest.push(World { srcs: vec![SrcKind::Subject], acts: a2 });
+        }
+      }
     }
   }
   let w_nest = Arc::new(w_nest);
